@@ -12,8 +12,12 @@ VERIF = os.path.dirname(os.path.dirname(os.path.abspath(__file__)))
 
 
 def one(seed, prop, tier, slots):
-    slot = slots.get()
     t0 = time.time()
+    chk = subprocess.run(["git", "-C", os.environ.get("VERIF_REPO", "/repo"), "apply", "--check", os.path.join(VERIF, "seeded", seed, "patch.diff")],
+                         stdout=subprocess.PIPE, stderr=subprocess.STDOUT)
+    if chk.returncode != 0:
+        return {"seed": seed, "property": prop, "verdict": "does-not-apply", "violations": 0, "wall_s": 0, "tail": ""}
+    slot = slots.get()
     try:
         env = dict(os.environ, MUTSLOT=str(slot), TAILN="40")
         p = subprocess.run([os.path.join(VERIF, "vlib", "mutrig.sh"), prop, os.path.join(VERIF, "seeded", seed, "patch.diff"), tier],
@@ -60,7 +64,7 @@ def main():
             print("%-8s %-4s %-24s %4ds" % (r["seed"], r["property"], r["verdict"], r["wall_s"]), flush=True)
     os.makedirs(os.path.join(VERIF, "out"), exist_ok=True)
     json.dump(res, open(os.path.join(VERIF, "out", "seedsweep.json"), "w"), indent=1)
-    bad = [r for r in res if r["verdict"] in ("MISSED", "TIMEOUT")]
+    bad = [r for r in res if r["verdict"] in ("MISSED", "TIMEOUT")]   # "does-not-apply": the code the seed changed was rewritten by a later repair
     print("%d seeds, %d with replay, %d proof/tie only, %d missed" % (len(res), sum(r["verdict"] == "replay" for r in res),
           sum(r["verdict"] == "no-failing-input-found" for r in res), len(bad)))
     return 1 if bad else 0
